@@ -80,19 +80,21 @@ def mk(rng, interleave, nparts):
         v = vs[0]; defs.append({"v": v, "k": "gt", "c": 0}); dsql.append("%s AS v > 0" % v)
     skip = rng.choice(["past", "past", "next"])
     part = "g" if nparts > 1 else rng.choice(["", "g"])
+    # partition values: texts, small integers, or float64 values that agree in their first six significant digits
+    pvals = rng.choice([["p0", "p1", "p2"], ["p0", "p1", "p2"], [7, 8, 9], [{"$f": 100001.5}, {"$f": 100002.5}, {"$f": 100002.25}]])
     sql = "SELECT * FROM stream MATCH_RECOGNIZE (%sORDER BY ts MEASURES MATCH_NUMBER() AS mn, FIRST(id) AS f, LAST(id) AS l, COUNT(*) AS n, FIRST(g) AS g ONE ROW PER MATCH AFTER MATCH %s PATTERN (%s) DEFINE %s)" % (
         "PARTITION BY g " if part else "", "SKIP PAST LAST ROW" if skip == "past" else "SKIP TO NEXT ROW", psql(pat), ", ".join(dsql))
     rows = []
     L = rng.choice([3, 4, 5, 6, 7])
     if interleave:
         for i in range(L * nparts):
-            rows.append({"id": i + 1, "ts": i + 1, "g": "p%d" % rng.randrange(nparts), "v": rng.choice([0, 1, 1, 2, 3, 2])})
+            rows.append({"id": i + 1, "ts": i + 1, "g": pvals[rng.randrange(nparts)], "v": rng.choice([0, 1, 1, 2, 3, 2])})
     else:
         i = 0
         for pn in range(nparts):
             for _ in range(L):
                 i += 1
-                rows.append({"id": i, "ts": i, "g": "p%d" % pn, "v": rng.choice([0, 1, 1, 2, 3, 2])})
+                rows.append({"id": i, "ts": i, "g": pvals[pn], "v": rng.choice([0, 1, 1, 2, 3, 2])})
     meta = {"fam": "cep", "pat": pat, "defs": defs, "skip": skip, "part": part}
     return {"meta": meta, "sql": sql, "rows": rows, "stop": True}
 
